@@ -842,6 +842,14 @@ func (runInfo *runInfoStruct) runDefers() {
 	}
 	runInfo.rv = rv
 	runInfo.err = err
+	select {
+	case <-runInfo.ctx.Done():
+		// a deferred call cut short by the cancellation must not be hidden
+		// behind the error of the body
+		runInfo.rv = nilValue
+		runInfo.err = ErrInterrupt
+	default:
+	}
 }
 
 // callDeferredFunc calls a single deferred function.
